@@ -81,7 +81,12 @@ class Env:
 
     def v2p(self, f, p, pd):
         f, p = numpy.asarray(f, dtype=object), numpy.asarray(p, dtype=object)
-        return numpy.array([[self.ctx.uf("V2P", [f, p, Sym.of(x)]) for x in pd]], dtype=object)
+
+        def canon(x):
+            # requested pressures are concrete floats: two ways of building the same grid (linspace, p_min + k*dp) agree only to
+            # rounding, so the congruence key is the value to 12 significant digits
+            return Sym.of(float("%.11e" % x)) if isinstance(x, (float, numpy.floating)) else Sym.of(x)
+        return numpy.array([[self.ctx.uf("V2P", [f, p, canon(x)]) for x in pd]], dtype=object)
 
 
 def run_callback(env, st, tr, F, interp, ntv, system, p_min=0.0, delta_p=1.0):
@@ -268,7 +273,7 @@ def replay_cli(chk, rng, what, only_mode=None):
         with warnings.catch_warnings():
             warnings.simplefilter("ignore")
             r = CliRunner().invoke(st.main, [os.path.join(ex, "input01"), os.path.join(ex, "input02"), "-s", "trigonal7", "-I", mode, "-n", "41",
-                                             "--p-min", "0", "--delta-p", "1"])
+                                             "--p-min", "2", "--delta-p", "1"])
         if r.exit_code != 0:
             chk.violation("run-static:raises[%s]" % mode, "cij run-static -I %s examples/akimotoite/input01 input02 fails: %r" % (mode, r.exception),
                           dict(mode=mode))
@@ -296,7 +301,7 @@ def replay_cli(chk, rng, what, only_mode=None):
         if inner.sum() > 2 and numpy.abs(df["P"].to_numpy()[inner] - pfit[inner]).max() > 0.05 * (numpy.abs(pfit[inner]).max() + 1):
             chk.violation("run-static:P-column[%s]" % mode, "mode %s: P is not -dF/dV of the fitted energies" % mode, dict(mode=mode))
             return
-        if mode == "pressure" and numpy.abs(df["P"].to_numpy() - numpy.arange(len(df))).max() > 1e-6:
+        if mode == "pressure" and numpy.abs(df["P"].to_numpy() - (2 + numpy.arange(len(df)))).max() > 1e-6:
             chk.violation("run-static:P-grid", "pressure-mode rows do not sit at the requested pressures", dict(mode=mode))
             return
         ed_ = read_elast_data(os.path.join(ex, "input02"))
